@@ -3,8 +3,10 @@ package claims
 import (
 	"context"
 	"fmt"
+	"io"
 	"os"
 	"runtime"
+	"sort"
 	"strings"
 	"sync"
 	"sync/atomic"
@@ -22,6 +24,33 @@ import (
 type env struct {
 	r   *rig.Rig
 	ctx context.Context
+
+	clOnce sync.Once
+	cl     hydrapb.HydraideServiceClient
+}
+
+// filteredKeys returns the sorted keys a filtered read (GetByIndexStream over the KEY index) yields.
+func (e *env) filteredKeys(sn string, f *hydrapb.FilterGroup) ([]string, error) {
+	e.clOnce.Do(func() { e.cl = e.r.Serve() })
+	ctx, cancel := context.WithTimeout(e.ctx, 30*time.Second)
+	defer cancel()
+	st, err := e.cl.GetByIndexStream(ctx, &hydrapb.GetByIndexStreamRequest{IslandID: rig.Island(sn), SwampName: sn, IndexType: hydrapb.IndexType_KEY, Filters: f, KeysOnly: true})
+	if err != nil {
+		return nil, err
+	}
+	var keys []string
+	for {
+		m, err := st.Recv()
+		if err == io.EOF {
+			break
+		}
+		if err != nil {
+			return nil, err
+		}
+		keys = append(keys, m.GetTreasure().GetKey())
+	}
+	sort.Strings(keys)
+	return keys, nil
 }
 
 var (
@@ -91,6 +120,7 @@ func tsToNanos(t *timestamppb.Timestamp) int64 {
 // seedRec is one record written before the concurrent phase.
 type seedRec struct {
 	Key     string
+	Alt     string // "" = msgpack body; "int" | "str" | "raw": a value that is not a msgpack map
 	Body    Body
 	Exp     int64 // unix nanos, 0 = none
 	Created int64 // unix nanos, 0 = none
@@ -99,7 +129,19 @@ type seedRec struct {
 func (e *env) seed(sn string, recs []seedRec) error {
 	var kvs []*hydrapb.KeyValuePair
 	for _, r := range recs {
-		kv := &hydrapb.KeyValuePair{Key: r.Key, BytesVal: wrapBody(encodeBody(r.Body))}
+		kv := &hydrapb.KeyValuePair{Key: r.Key}
+		switch r.Alt {
+		case "int":
+			v := int64(7)
+			kv.Int64Val = &v
+		case "str":
+			v := "plain string value"
+			kv.StringVal = &v
+		case "raw":
+			kv.BytesVal = []byte("raw bytes, no msgpack magic")
+		default:
+			kv.BytesVal = wrapBody(encodeBody(r.Body))
+		}
 		kv.ExpiredAt = nanosToTS(r.Exp)
 		kv.CreatedAt = nanosToTS(r.Created)
 		kvs = append(kvs, kv)
